@@ -26,6 +26,11 @@ func genStructs(o *hx.Out, rng *hx.Rng, n, nmut int, big bool) {
 			if !packed && !big {
 				sizes = []int{127, 128}
 			}
+			if !big && !packed && !seenBytes && (e.Name == "pkg/blockchain.Transaction" || e.Name == "pkg/blockchain.BlockHeader" ||
+				e.Name == "pkg/p2p.Request" || e.Name == "pkg/blockchain.BlockAsset") {
+				sizes = append(append([]int{}, sizes...), 16383, 16384) // quick tier: 2^14 on the main network structs
+				seenBytes = true
+			}
 			if big { // around the two- / three-byte length prefix: kept few, 16k-element arrays are slow to evaluate in Coq
 				if packed {
 					sizes = append(append([]int{}, sizes...), 16384)
